@@ -4,7 +4,10 @@ Tie: T1. The generic-interface glue (MFront/GenericBehaviour/{Integrate,GreenLag
 LogarithmicStrainIntegrate}.hxx, BehaviourData.h, State.h) is instantiated with mfront_gb_real = verif::Sym
 (only the two typedefs of Types.h are supplied by the tracer) on a mock small-strain isotropic linear
 elastic behaviour; K[0..2] are constants, so the shipped getStressMeasure/getTangentOperator decide.
-Every (strategy, dimension, stress measure, tangent flavour) combination is a traced unit (72)."""
+Every (strategy, hypothesis, stress measure, tangent flavour) combination is a traced unit (120): hypotheses
+Tridimensional, PlaneStrain, AxisymmetricalGeneralisedPlaneStrain and the two plane stress hypotheses PlaneStress,
+AxisymmetricalGeneralisedPlaneStress (units `*_N2p_*`, `*_N1p_*`: the mock behaviour exposes the axial strain as
+internal state variable 0 and eliminates it from sigma_zz = 0)."""
 import copy
 import random
 
@@ -16,13 +19,13 @@ import t1
 import vlib
 
 NS = "TfelVerif.C55."
-PROPS = ["Props1", "Props23"]
+PROPS = ["Props1", "Props23", "Props2p"]
 
 
 def lean_units(units):
     """units (possibly restricted to some outputs) that the Lean theorems are about, by generated module"""
     byname = {u.name: u for u in units}
-    groups = {"Gen1": [], "Gen23": []}
+    groups = {"Gen1": [], "Gen23": [], "Gen2p": []}
     # 1D: the four (stress measure, flavour) pairs where the flavour is the derivative of the returned measure
     # (tau = J sigma for DTAU_DDF), both strategies
     for st in ("GL", "HK"):
@@ -35,6 +38,10 @@ def lean_units(units):
         v = copy.copy(byname[n])
         v.outs = [(o, r) for o, r in v.outs if o.startswith("e")]   # the strain measure seen by the behaviour
         groups["Gen23"].append(v)
+    # plane stress, Green-Lagrange strategy, Cauchy stress requested: strain, axial strain returned, stress
+    v = copy.copy(byname["GL_N2p_sm0_to1"])
+    v.outs = [(o, r) for o, r in v.outs if not o.startswith("K")]
+    groups["Gen2p"].append(v)
     return groups
 
 
@@ -44,6 +51,21 @@ def build(ck, name, src, flags=(), opt="-O0"):
                          R + "/src/Material/LogarithmicStrainHandler.cxx", R + "/src/Math/LUException.cxx",
                          R + "/src/Math/MathException.cxx"],
                   flags=list(flags), includes=[R + "/mfront/include"], opt=opt)
+
+
+def ps_replay(ck, ps_bin, unit, env):
+    """plane stress units: J sigma = F S F^T with the end-of-step axial stretch, on the double code"""
+    strat, Ns, sms, tos = unit.split("_")
+    N = int(Ns[1])
+    T = {1: 3, 2: 5}[N]
+    ax = 2 if N == 2 else 1
+    F0 = [env["Fa%d" % i] if ("Fa%d" % i) in env else 0. for i in range(T)]
+    F1 = [env["F%d" % i] if ("F%d" % i) in env else 0. for i in range(T)]
+    if strat == "GL":
+        F0[ax] = F1[ax] = 0.
+    vals = [1 if strat == "HK" else 0, N, env["la"], env["mu"], env["ezza"]] + F0 + F1
+    p = ck.run([ps_bin], input=" ".join("%.17g" % float(v) for v in vals) + "\n", timeout=300)
+    return p.stdout.strip().splitlines()[-8:]
 
 
 def fd_replay(ck, fd_bin, unit, env):
@@ -68,18 +90,24 @@ def run(ck):
     refs = {u.name: c55ref.unit_ref(u.name) for u in units}
     found, stats = c24ref.search(ck, units, refs, rng, tracer, trials=1 if ck.quick else 4)
     if found:
-        fd_bin = None
+        fd_bin = ps_bin = None
         try:
-            fd_bin = build(ck, "c55fd", "C55/fd.cxx", opt="-O1")
+            if any("p_" not in f["unit"] for f in found):
+                fd_bin = build(ck, "c55fd", "C55/fd.cxx", opt="-O1")
+            if any("p_" in f["unit"] for f in found):
+                ps_bin = build(ck, "c55ps", "C55/ps.cxx", opt="-O1")
         except Exception as e:  # support only
-            ck.log("fd harness not built:", repr(e)[:200])
+            ck.log("replay harness not built:", repr(e)[:200])
         for f in found:
-            if fd_bin:
-                try:
-                    env = {k: c24ref_eval(v) for k, v in f["inputs_exact"].items()}
+            try:
+                env = {k: c24ref_eval(v) for k, v in f["inputs_exact"].items()}
+                if "p_" in f["unit"]:
+                    if ps_bin:
+                        f["stress_measure_consistency_replay_on_real_double_code"] = ps_replay(ck, ps_bin, f["unit"], env)
+                elif fd_bin:
                     f["finite_difference_replay_on_real_double_code"] = fd_replay(ck, fd_bin, f["unit"], env)
-                except Exception as e:  # support only
-                    f["fd_replay_error"] = repr(e)
+            except Exception as e:  # support only
+                f["replay_error"] = repr(e)
     by_unit = {f["unit"]: f for f in found}
     reported = set()
     if not res.ok:
@@ -113,7 +141,7 @@ def run(ck):
         "dag_nodes": sum(len(u.order) for u in units),
         "lean_modules": props,
         "evaluations": stats["points"], "distinct_nontrivial": stats["points"],
-        "rule": "each of the 72 traced units (2 strategies x 3 dimensions x 3 stress measures x 4 tangent flavours) evaluated exactly over Q(sqrt2) at seeded random rational (F0, F1, lambda, mu[, vp, m]) and compared output by output with the hyperelastic reference: strain measure, stress of S = C:E (or T = C:E_log through the C24 conversions) in the requested measure, and the exact derivative of that stress (dual numbers) in the requested flavour; distinct = points",
+        "rule": "each of the 120 traced units (2 strategies x 5 hypotheses (3D, plane strain, axisym. gen. plane strain, plane stress, axisym. gen. plane stress) x 3 stress measures x 4 tangent flavours) evaluated exactly over Q(sqrt2) at seeded random rational (F0, F1, lambda, mu[, vp, m]) and compared output by output with the hyperelastic reference: strain measure, stress of S = C:E (or T = C:E_log through the C24 conversions) in the requested measure, and the exact derivative of that stress (dual numbers) in the requested flavour; distinct = points",
         "search_stats": stats,
         "combinations": sorted(u.name for u in units),
         "samples": [{"unit": u.name, "inputs": len(u.inputs), "outputs": len(u.outs)} for u in units[:6]],
